@@ -1,6 +1,8 @@
 package store
 
 import (
+	"crypto/rand"
+	"encoding/binary"
 	"fmt"
 	"sync"
 
@@ -27,9 +29,26 @@ type commandPipeline struct {
 
 func newCommandPipeline(applier func(*pb.RaftCmdRequest) (*pb.RaftCmdResponse, error)) *commandPipeline {
 	return &commandPipeline{
+		seq:       randomProposalBase(),
 		proposals: make(map[uint64]*commandProposal),
 		applier:   applier,
 	}
+}
+
+// randomProposalBase picks where this store process starts numbering its
+// proposals. Request ids travel inside the replicated command and every
+// replica completes the local pending proposal with the id of each entry it
+// applies, so two stores (or two incarnations of one store) must not hand out
+// the same numbers while their entries can still be applied somewhere: a
+// counter starting at 1 on every store made a deposed leader answer its client
+// with the result of the new leader's entry. A random 62-bit base per process
+// makes the ranges of different processes overlap with negligible probability.
+func randomProposalBase() uint64 {
+	var b [8]byte
+	if _, err := rand.Read(b[:]); err != nil {
+		return 0
+	}
+	return binary.BigEndian.Uint64(b[:]) >> 2
 }
 
 func (cp *commandPipeline) nextProposalID() uint64 {
